@@ -36,7 +36,7 @@ class Part:
 
 def _env(part: Part):
     env = dict(os.environ)
-    pp = [str(HERE), os.environ.get("VT_REPO", "/repo") + "/src"]
+    pp = [str(HERE), os.environ.get("VT_REPO", "/repo") + "/src", str(HERE / "vt" / "testplugins")]
     if part.pure_pydantic:
         pp.insert(0, "/verif/.venv/purepyd")
     if env.get("PYTHONPATH"):
